@@ -20,6 +20,10 @@ PROPERTIES = {}
 PROPERTIES["C27"] = dict(
     title="Redirects never reach internal addresses or leak credentials",
     level="model_checking",
+    engine="kani",
+    technique="bounded model checking of the compiled classifier (Kani/CBMC/CaDiCaL, complete over all addresses) + symbolic execution of the "
+              "host-string and header-stripping SOURCE (syn AST -> bit-vector SMT, z3), native replay",
+    smt=dict(module="props_c27", K=6, N=24, timeout_ms=600000),
     level_text=("Bounded model checking of the compiled classifier: CBMC decides the equality 'implementation == prefix table "
                 "of the property' for ALL 2^32 IPv4 and ALL 2^128 IPv6 addresses (complete, loop-free), and the host-string "
                 "helpers for every ASCII host up to the stated length. This is the right level because the risky inputs are "
@@ -27,12 +31,14 @@ PROPERTIES["C27"] = dict(
     level_note=("Kernel-level claim: covers the address/host classification every redirect target passes through, not the "
                 "Location-header URL parsing, the hop loop or header stripping (http/url crates: heap-heavy, did not scale). "
                 "Trusted: Kani MIR->goto translation, CBMC, CaDiCaL; oracle table transcribed from the property text."),
-    scope=("Kernel-level: the address classifier that every redirect target passes through "
-           "(ipv4_is_non_global / ipv6_is_non_global / ip_is_non_global, with the std::net predicates "
-           "as compiled) and the host-string helpers (normalize_host, looks_like_obfuscated_ip)."),
+    scope=("Kernel-level, two composed layers: (Kani) the numeric classifier every redirect target passes through "
+           "(ipv4_is_non_global / ipv6_is_non_global / ip_is_non_global with the std::net predicates as compiled), complete over all "
+           "addresses; (Engine Z) the host-text layer host_is_non_global / normalize_host / looks_like_obfuscated_ip -- localhost names, "
+           "IPv4 literals, obfuscated numeric and hex forms -- and build_redirected_request's header stripping."),
     outside=["URL parsing of the Location header (url::Url::join, http::Uri parsing)",
-             "the redirect loop / 10-hop limit and header stripping over http::HeaderMap",
-             "IPv4-compatible and NAT64 IPv6 forms (not required by the property text)"],
+             "the redirect loop / 10-hop limit and the allow_redirects switch (RedirectResolver::http_resolve)",
+             "textual IPv6 literals (std's parser is modelled only as 'may parse'); IPv4-compatible and NAT64 IPv6 forms",
+             "DNS names that resolve to internal addresses (tracked upstream, not in the property)"],
     assumptions=["Kani's MIR->goto translation, CBMC 6.11 and CaDiCaL are sound",
                  "c2pa built with default-features=false, features=[rust_native_crypto] (kernels are crypto-independent)",
                  "oracle = prefix table transcribed from the property statement"],
@@ -174,4 +180,60 @@ PROPERTIES["C35"] = dict(
           what="streams of 0..=8 bytes x position 0..=9 x all u64 request sizes x all short-read schedules x failure at call 0..5",
           bounds="8 bytes; --unwind 12", kernel=["ReaderUtils::read_to_vec", "io_utils::safe_vec"]),
     ],
+)
+
+SMT_ENGINE_TEXT = ("Engine Z: /verif/smt/astdump (syn) dumps the AST of the functions from /repo's current source; /verif/smt/symex.py executes it "
+                   "symbolically (guarded merging, panics and bounds as obligations) into bit-vector terms over bounded byte strings (bstr.py); "
+                   "z3 (QF_BV) decides every obligation; satisfying assignments are replayed against the real functions through the "
+                   "cfg-guarded hooks (/verif/smt/native); the library models are validated on every run by differential execution")
+
+_SMT_TRUST = ["z3 is sound for QF_BV", "the symbolic interpreter (symex.py) and its models of std/library functions are faithful for ASCII input "
+              "(validated on every run by differential execution against the real functions; a mismatch makes the check inconclusive)",
+              "inputs are ASCII (Rust byte semantics == char semantics); non-ASCII input is outside the claim"]
+
+# --------------------------------------------------------------------------- C34
+PROPERTIES["C34"] = dict(
+    title="JUMBF URIs and manifest labels parse back to their parts",
+    level="model_checking",
+    engine="smt",
+    technique="symbolic execution of the Rust source (syn AST -> bit-vector SMT over bounded byte strings) decided by z3; native replay of models",
+    level_text=("Bounded symbolic checking of the label/URI helpers' SOURCE: every label is an arbitrary printable-ASCII string up to the "
+                "stated capacity (an SMT variable per byte plus a length), the builders and parsers of sdk/src/jumbf/labels.rs are "
+                "executed symbolically and z3 decides the round-trip equalities and the absence of panics (index out of range, "
+                "unwrap, usize underflow) for ALL such strings at once -- the separators '/', '=', ':' and '__' inside labels are "
+                "exactly the rare inputs sampling misses."),
+    level_note=("Source-level encoding: the trusted base is the interpreter and its models of str::split/strip_prefix/format!/parse etc. "
+                "(listed per query in evidence, validated differentially against the real functions on every run), and z3. Labels are "
+                "ASCII without '/' and '=' (what the SDK generates); capacities are bounded (quick: 10 bytes, thorough: 24/20 bytes). "
+                "Callers of these helpers in Claim/Store are outside."),
+    scope="sdk/src/jumbf/labels.rs: to_*_uri builders, manifest_label_from_uri, assertion_label_from_uri, box_name_from_uri, to_relative_uri, to_absolute_uri, to_normalized_uri, manifest_label_to_parts",
+    outside=["non-ASCII labels", "labels longer than the tier capacity", "Claim/Store call sites that build or consume these URIs",
+             "assertion instance/version suffix helpers of claim.rs and assertions/labels.rs (regex-based)"],
+    assumptions=_SMT_TRUST,
+    harnesses=[],
+    smt=dict(module="props_c34", K=6, N=24, timeout_ms=600000),
+)
+
+# --------------------------------------------------------------------------- C26
+PROPERTIES["C26"] = dict(
+    title="The network host allow-list is enforced on every request",
+    level="model_checking",
+    engine="smt",
+    technique="symbolic execution of the Rust source (syn AST -> bit-vector SMT over bounded byte strings) decided by z3; native replay of models",
+    level_text=("Bounded symbolic checking of the allow-list kernel's SOURCE: the pattern text, the URI's host, port and scheme are "
+                "arbitrary bounded ASCII strings (SMT variables); HostPattern::new, HostPattern::matches, is_uri_allowed and "
+                "RestrictedResolver::http_resolve are executed symbolically over a recording transport stub, and z3 decides for ALL "
+                "patterns and URIs that a match -- and hence a request reaching the transport -- implies the documented rules "
+                "(exact host or '*.'-wildcard sub-domain, equal port, equal scheme when given), plus absence of panics."),
+    level_note=("Kernel-level and one-directional (nothing outside the allow-list passes; over-strict refusals are not reported). "
+                "http::Uri is modelled by its host()/port()/scheme() accessors returning arbitrary strings of the stated charset; "
+                "URI parsing, the redirect hop loop, resolver stacking in Context and the async twin are outside. Trusted: interpreter "
+                "+ models (validated differentially on the repository's own HostPattern test vectors), z3."),
+    scope="sdk/src/http/restricted.rs: HostPattern::new/matches, is_uri_allowed, RestrictedResolver::is_uri_allowed, <RestrictedResolver as SyncHttpResolver>::http_resolve",
+    outside=["http::Uri parsing (userinfo, IDN, IPv6 brackets)", "resolver stacking in Context::build_default_*_resolver", "the async implementation",
+             "redirect hops (each hop re-enters the same wrapper)", "patterns/hosts longer than the tier capacity or non-ASCII"],
+    assumptions=_SMT_TRUST + ["Uri accessors return: host = non-empty [A-Za-z0-9.-]*, port = digits or None, scheme = http|https",
+                              "stub: the wrapped transport records the call and returns Ok"],
+    harnesses=[],
+    smt=dict(module="props_c26", K=6, N=24, timeout_ms=600000),
 )
